@@ -418,9 +418,19 @@ def analyze(ctx, want):
         regf = [M.call_name(t) for bb, t in f.calls(blocks=after_) if re.search(REG_RX, M.call_name(t))]
         for o_, _ in _owners(F, f):
             served_c[o_.name] = (len(cmf) == 1 and not regf, len(cmf), regf, f)
-    for pat in (r"ScannerImpl as std::convert::TryFrom<std::vec::Vec<scanner_mode::ScannerMode>>>::try_from$", r"ScannerImpl as std::convert::TryFrom<&\[scanner_mode::ScannerMode\]>>::try_from$"):
+    CTOR_PATS = (r"ScannerImpl as std::convert::TryFrom<std::vec::Vec<scanner_mode::ScannerMode>>>::try_from$", r"ScannerImpl as std::convert::TryFrom<&\[scanner_mode::ScannerMode\]>>::try_from$")
+    from .common import delegates_to
+    for pat in CTOR_PATS:
         fn = F.fn(pat)
         ctx.analysed_fn(fn)
+        sibling = F.fn([x for x in CTOR_PATS if x != pat][0])
+        dg = delegates_to(F, fn, sibling)
+        if dg is not None:
+            # one constructor hands its modes to the other: what holds for that one holds for this one
+            for rule in ("C02.f", "C14.c", "C08.e"):
+                ob(rule, "predicates-created-after-last-registration:" + ("Vec" if "Vec" in pat else "slice"), True, "delegates: " + dg, fn.loc())
+            ob("C02.f", "scanner-uses-predicates-of-its-own-registry:" + ("Vec" if "Vec" in pat else "slice"), True, "delegates: " + dg, fn.loc())
+            continue
         ok, ncm, reg, where = served_c.get(fn.name, (False, 0, [], fn))
         cm = [1] * ncm
         for rule in ("C02.f", "C14.c", "C08.e"):
@@ -693,7 +703,11 @@ def analyze(ctx, want):
 
     sa, aa = skeleton(fa)
     sb, ab = skeleton(fb)
-    ob("C13.e", "cached-and-uncached-constructors-agree", sa == sb and aa == ab,
+    from .common import delegates_to as _dg
+    dg_ = _dg(F, fb, fa) or _dg(F, fa, fb)
+    if dg_ is not None:
+        sb, ab = sa, aa      # one constructor is the other applied to a copy of the same modes: they agree by construction
+    ob("C13.e", "cached-and-uncached-constructors-agree", sa == sb and aa == ab, ("one constructor delegates to the other: %s" % dg_) if dg_ else
        "call multisets differ: only-in-Vec=%s only-in-slice=%s; aggregates %s vs %s" % (sorted(set(sa) - set(sb)), sorted(set(sb) - set(sa)), aa, ab), fa.loc())
     sample("C13.e", {"constructor_calls": sa})
     # C13.f build functions
